@@ -13,6 +13,7 @@ import (
 	"fmt"
 	"reflect"
 	"runtime"
+	"strings"
 	"unsafe"
 )
 
@@ -134,7 +135,8 @@ type thread struct {
 	steps        int
 	hist         uint64
 
-	log []Event // per-thread event log (thread-owned until the join at the end of the execution)
+	site string  // trace mode: source position of the pending operation
+	log  []Event // per-thread event log (thread-owned until the join at the end of the execution)
 
 	hand handoff
 }
@@ -162,6 +164,9 @@ func (t *thread) park() {
 		runtime.Goexit()
 	}
 	t.steps++
+	if t.x.trace != nil {
+		t.site = callerSite()
+	}
 	t.hand.signalParked(t.x)
 	t.hand.awaitRun()
 	if t.abort {
@@ -461,4 +466,30 @@ func MutexLocked(p any) bool {
 		return false
 	}
 	return m.locked
+}
+
+// callerSite returns the innermost frame outside the shim packages (trace mode only).
+func callerSite() string {
+	var pcs [24]uintptr
+	n := runtime.Callers(3, pcs[:])
+	fr := runtime.CallersFrames(pcs[:n])
+	for {
+		f, more := fr.Next()
+		if f.Function != "" && !strings.Contains(f.Function, "/internal/v/vrt.") && !strings.Contains(f.Function, "/internal/v/sync.") &&
+			!strings.Contains(f.Function, "/internal/v/atomic.") && !strings.Contains(f.Function, "/internal/v/time.") &&
+			!strings.Contains(f.Function, "/internal/v/rand.") {
+			file := f.File
+			if k := strings.LastIndexByte(file, '/'); k >= 0 {
+				file = file[k+1:]
+			}
+			fn := f.Function
+			if k := strings.LastIndexByte(fn, '/'); k >= 0 {
+				fn = fn[k+1:]
+			}
+			return fmt.Sprintf("%s:%d %s", file, f.Line, fn)
+		}
+		if !more {
+			return ""
+		}
+	}
 }
